@@ -13,10 +13,10 @@ use crate::air::{GenAir, PubInputs};
 use crate::spec::*;
 
 pub fn c22_subs() -> Vec<Sub> {
-    vec![Sub::gen("constraints", constraints, 200, 30_000, 800_000)]
+    vec![Sub::gen("constraints", constraints, 200, 30_000, 800_000), Sub::gen("e2e_order", e2e_order, 400, 1_200, 30_000)]
 }
 
-pub const C22_RULE: &str = "case = valid (pairwise non-overlapping) assertion set: 1..12 main assertions and optionally 1..5 auxiliary assertions of all kinds (single; periodic; sequence of 2..n/2 values with any first step and stride, incl. >= 64 values; several assertions sharing one divisor) over n = 8..1024, f62/f64/f128 and their quadratic extensions, with known distinct composition coefficients, listed in a generated order. Oracle: for every group the divisor vanishes on exactly the asserted steps of the group over the whole trace domain and has degree equal to their number; every constraint evaluates to 0 at each asserted step for the asserted value and to delta for value + delta; off the domain the group's evaluation equals sum cc_i (state[col_i] - P_i(x)) / prod (x - g^s) with P_i by Lagrange interpolation from the definition; divisors, value polynomials and coefficients are identical under a permutation of the AIR's assertion list (vstark additionally: identical proof bytes). Non-trivial = at least two different divisors; distinct = hash of the assertion set.";
+pub const C22_RULE: &str = "case = valid (pairwise non-overlapping) assertion set: 1..12 main assertions and optionally 1..5 auxiliary assertions of all kinds (single; periodic; sequence of 2..n/2 values with any first step and stride, incl. >= 64 values; several assertions sharing one divisor) over n = 8..1024, f62/f64/f128 and their quadratic extensions, with known distinct composition coefficients, listed in a generated order. Oracle: for every group the divisor vanishes on exactly the asserted steps of the group over the whole trace domain and has degree equal to their number; every constraint evaluates to 0 at each asserted step for the asserted value and to delta for value + delta; off the domain the group's evaluation equals sum cc_i (state[col_i] - P_i(x)) / prod (x - g^s) with P_i by Lagrange interpolation from the definition; divisors, value polynomials and coefficients are identical under a permutation of the AIR's assertion list ; sub-check e2e_order: a GenAir instance (incl. forced sequences of 64..512 values with the first step anywhere in the stride) is proved twice by the real prover, once per listing order of its assertions, with public inputs that encode the statement in a canonical order: the two proofs are byte-identical and the verifier accepts them. Non-trivial = at least two different divisors; distinct = hash of the assertion set.";
 pub fn c22_assumptions() -> Vec<&'static str> {
     vec![
         "assertion sets are made non-overlapping with the harness's own cell-set predicate (overlap detection itself is C21's subject)",
@@ -24,7 +24,7 @@ pub fn c22_assumptions() -> Vec<&'static str> {
     ]
 }
 
-pub const C22_REQUIRED: &[&str] = &["sequence_ge_64", "first_step_nonzero", "aux_assertion", "permutation_not_identity", "groups_ge_2", "ext_field", "shared_divisor"];
+pub const C22_REQUIRED: &[&str] = &["sequence_ge_64", "first_step_nonzero", "aux_assertion", "permutation_not_identity", "groups_ge_2", "ext_field", "shared_divisor", "e2e:order_changed", "e2e:sequence_offset_ge_values"];
 
 fn constraints(s: &mut Src, rec: &mut Rec) -> CaseResult {
     match s.below(6) {
@@ -273,5 +273,96 @@ fn run<S: FSpec, E: FieldElement<BaseField = S::B> + ExtensionOf<S::B>>(s: &mut 
     let bc2 = air2.get_boundary_constraints::<E>(aux_arg, &coeffs);
     ensure!(same_groups(bc.main_constraints(), bc2.main_constraints()) && same_groups(bc.aux_constraints(), bc2.aux_constraints()), "order-dependent-coefficients", "{} n = {n}: boundary constraints (divisors, value polynomials or composition coefficients) change when the AIR lists the same assertions in a different order", S::NAME);
     rec.weight = total as u64;
+    Ok(())
+}
+
+
+// END-TO-END: THE PROOF DOES NOT DEPEND ON THE LISTING ORDER OF THE ASSERTIONS
+// ================================================================================================
+
+fn e2e_order(s: &mut Src, rec: &mut Rec) -> CaseResult {
+    // mostly the cheap hashers; the Rescue instances occasionally
+    let idx = if s.chance(1, 8) { 9 + s.below(3) } else { s.below(9) };
+    vhash::with_hasher!(idx, X, run_e2e::<X>(s, rec))
+}
+
+fn run_e2e<X: vhash::HS>(s: &mut Src, rec: &mut Rec) -> CaseResult
+where
+    X::H: Send + Sync,
+{
+    use std::sync::Arc;
+
+    use winter_crypto::{DefaultRandomCoin, MerkleTree};
+    use winter_utils::Serializable;
+    use winter_verifier::{verify, AcceptableOptions};
+
+    use crate::gen::{gen_instance, GenCfg};
+    use crate::options::gen_options;
+    use crate::{GenAir, GenProver, GenTrace, PubInputs};
+
+    let mut cfg = GenCfg::small();
+    cfg.max_log_n = if X::is_rescue() { 7 } else { 9 };
+    let long = s.chance(1, 3);
+    if long {
+        cfg.min_log_n = if X::is_rescue() { 8 } else { 10 };
+        cfg.max_log_n = if X::is_rescue() { 9 } else { 12 };
+        cfg.max_width = 3;
+        cfg.allow_aux = s.chance(1, 4);
+        cfg.max_assertions = 4;
+        cfg.long_sequence = true;
+    }
+    let inst = gen_instance::<X::S>(s, &cfg, rec);
+    let spec = inst.spec;
+    let cube_ok = <X::S as FSpec>::CUBE.is_some();
+    let opt = gen_options(s, spec.trace_len, spec.min_blowup(), if long { 1 << 15 } else { 1 << 12 }, cube_ok, rec);
+    let options = opt.build();
+    // second listing order: a generated permutation of main and auxiliary assertions
+    let mut other = spec.clone();
+    for list in [&mut other.assertions, &mut other.aux_assertions] {
+        let m = list.len();
+        for i in (1..m).rev() {
+            let j = s.below(i as u64 + 1) as usize;
+            list.swap(i, j);
+        }
+        if m >= 2 && s.bool() {
+            list.reverse();
+        }
+    }
+    let changed = other.assertions != spec.assertions || other.aux_assertions != spec.aux_assertions;
+    rec.class_if(changed, "e2e:order_changed");
+    rec.nontrivial = changed;
+    let seq_offset = spec.assertions.iter().any(|a| a.kind == 2 && a.values.len() >= 64 && a.first * spec.min_blowup() >= a.values.len());
+    rec.class_if(seq_offset, "e2e:sequence_offset_ge_values");
+    rec.set_fp(&(X::NAME, spec.fingerprint(), other.fingerprint(), format!("{opt:?}")));
+    rec.describe(|| json!({"instance": X::NAME, "spec": spec.describe(), "second_order": other.assertions.iter().map(|a| (a.column, a.first, a.stride)).collect::<Vec<_>>(), "options": opt.describe()}));
+    let ctx = format!("{}; spec {}; options {}", X::NAME, spec.describe(), opt.describe());
+    let mut proofs = vec![];
+    for sp in [Arc::new(spec.clone()), Arc::new(other.clone())] {
+        let prover = GenProver::<X>::new(sp.clone(), options.clone());
+        let trace = GenTrace::<X::S>::new(&sp, inst.main.clone());
+        match catch(|| crate::prover::prove_sync(&prover, trace)) {
+            Ok(Ok(p)) => proofs.push((sp, p)),
+            Ok(Err(e)) => return Err(Fail::new("e2e-prover-error", format!("prover returned an error on a satisfying instance: {e} ({ctx})"))),
+            Err(_) => {
+                rec.class("prover_declined");
+                rec.nontrivial = false;
+                return Ok(());
+            },
+        }
+    }
+    let b0 = proofs[0].1.to_bytes();
+    let b1 = proofs[1].1.to_bytes();
+    if b0 != b1 {
+        let at = b0.iter().zip(b1.iter()).position(|(a, b)| a != b).unwrap_or(b0.len().min(b1.len()));
+        return Err(Fail::new("e2e-proof-depends-on-assertion-order", format!("proofs of the same statement differ (first difference at byte {at} of {}) when the AIR lists its assertions in another order ({ctx}; second order {:?})", b0.len(), other.assertions.iter().map(|a| (a.column, a.first, a.stride)).collect::<Vec<_>>())));
+    }
+    for (sp, proof) in proofs {
+        let pi = PubInputs::<X::S>::new(sp.clone());
+        match catch(|| verify::<GenAir<X::S>, X::H, DefaultRandomCoin<X::H>, MerkleTree<X::H>>(proof, pi, &AcceptableOptions::OptionSet(vec![options.clone()]))) {
+            Ok(Ok(())) => {},
+            Ok(Err(e)) => return Err(Fail::new("e2e-honest-proof-rejected", format!("the verifier rejected the proof of a satisfied statement: {e} ({ctx})"))),
+            Err(pn) => return Err(Fail::new(format!("e2e-verifier-{}", pn.key()), format!("verifier panicked: {} ({ctx})", pn.message))),
+        }
+    }
     Ok(())
 }
